@@ -5,7 +5,7 @@ use crate::meta::{key_pool, KeyInfo};
 use crate::proto::Sink;
 use crate::rng::Rng;
 use crate::Cfg;
-use chrono::Duration;
+use chrono::{Duration, TimeZone, Utc};
 use in_toto::models::rule::ArtifactRule;
 
 type Fault = (&'static str, String, bool);
@@ -50,12 +50,12 @@ fn other_key(pool: &[KeyInfo], r: &mut Rng, avoid: &[usize]) -> usize {
 pub(crate) fn inject(prop: &str, s: &mut Scenario, r: &mut Rng, pool: &[KeyInfo]) -> Option<Fault> {
     let kinds: &[&str] = match prop {
         "C01" => &["caller_empty", "caller_superset", "caller_disjoint", "caller_alias", "owner_sig_missing", "owner_sig_corrupt", "owner_sig_mislabel", "owner_sig_duplicated", "owner_sig_duplicated_apart", "layout_tampered", "layout_command_resplit", "not_a_layout", "extra_sig", "none"],
-        "C06" => &["expired_1s", "expired_long", "expires_now", "expires_plus1", "offset_notation", "offset_expired", "sub_expired", "none"],
-        "C02" => &["link_removed", "link_wrong_signer", "link_mislabel", "link_tampered", "link_corrupt", "link_unauthorized", "key_not_in_table", "link_garbage", "link_misfiled", "link_cosigned_forgery", "cosigned_next_to_differing", "threshold_zero_nolinks", "threshold_zero_onelink", "threshold_raised", "link_wrong_type", "none"],
-        "C07" => &["disagree_product_digest", "disagree_material_path", "disagree_extra_entry", "disagree_t1", "agree_extra_differs", "cosigned_next_to_differing", "none"],
-        "C13" => &["differing_links_t1", "differing_links_t1_rules", "none", "link_removed", "disagree_product_digest", "disagree_extra_entry", "cosigned_next_to_differing", "cosigned_next_to_differing"],
-        "C08" => &["insp_exit", "insp_notfound", "insp_rule", "pre_expired", "pre_badsig", "pre_link_removed", "pre_rule", "pre_disagree", "none"],
-        "C15" => &["no_steps", "no_steps_inner", "sub_wrong_signer", "sub_expired", "sub_missing_link", "sub_links_in_parent", "sub_rule", "sub_unauthorized_inner", "sub_tampered", "sub_insp_exit", "sub_insp_rule", "sub_dir_misnamed", "sub_dir_misnamed", "none"],
+        "C06" => &["expired_1s", "expired_long", "expired_centuries", "expires_now", "expires_plus1", "expires_far_future", "offset_notation", "offset_expired", "sub_expired", "none"],
+        "C02" => &["link_removed", "link_wrong_signer", "link_mislabel", "link_tampered", "link_corrupt", "link_unauthorized", "key_not_in_table", "link_garbage", "link_misfiled", "link_cosigned_forgery", "cosigned_next_to_differing", "threshold_zero_nolinks", "threshold_zero_norules", "threshold_zero_norules", "threshold_zero_onelink", "threshold_raised", "link_wrong_type", "none"],
+        "C07" => &["disagree_product_digest", "disagree_material_path", "disagree_extra_entry", "disagree_t1", "agree_extra_differs", "cosigned_next_to_differing", "disagree_path_spelling", "disagree_alias_entry", "disagree_algorithm_set", "none"],
+        "C13" => &["differing_links_t1", "differing_links_t1_rules", "none", "link_removed", "disagree_product_digest", "disagree_extra_entry", "cosigned_next_to_differing", "cosigned_next_to_differing", "digest_partial_agreement", "digest_partial_agreement"],
+        "C08" => &["insp_exit", "insp_notfound", "insp_rule", "insp_rule_named_like_step", "pre_expired", "pre_badsig", "pre_link_removed", "pre_rule", "pre_disagree", "none"],
+        "C15" => &["no_steps", "no_steps_inner", "sub_wrong_signer", "sub_expired", "sub_missing_link", "sub_links_in_parent", "sub_rule", "sub_unauthorized_inner", "sub_tampered", "sub_insp_exit", "sub_insp_rule", "sub_dir_misnamed", "sub_dir_misnamed", "sub_misfiled", "sub_misfiled", "none"],
         _ => &["none"],
     };
     let kind = *r.pick(kinds);
@@ -155,11 +155,33 @@ pub(crate) fn inject_kind(prop: &str, kind: &str, s: &mut Scenario, r: &mut Rng,
             None
         }
         // ---------------------------------------------------------------- C06
-        "expired_1s" | "expired_long" | "expires_now" | "expires_plus1" | "offset_notation" | "offset_expired" => {
+        "expired_1s" | "expired_long" | "expired_centuries" | "expires_now" | "expires_plus1" | "expires_far_future" | "offset_notation" | "offset_expired" => {
             let l = layout_mut(&mut s.block)?;
             let (e, fatal) = match kind {
                 "expired_1s" => (now - Duration::seconds(1), true),
                 "expired_long" => (now - Duration::days(400 * (1 + r.below(20) as i64)), true),
+                // beyond what a 64-bit count of nanoseconds, milliseconds of a 32-bit day count ... can span
+                "expired_centuries" => (
+                    *r.pick(&[
+                        Utc.with_ymd_and_hms(1, 1, 1, 0, 0, 0).unwrap(),
+                        Utc.with_ymd_and_hms(0, 1, 1, 0, 0, 0).unwrap(),
+                        Utc.with_ymd_and_hms(1066, 10, 14, 8, 0, 0).unwrap(),
+                        Utc.with_ymd_and_hms(1677, 9, 21, 0, 12, 43).unwrap(),
+                        Utc.with_ymd_and_hms(1700, 2, 28, 23, 59, 59).unwrap(),
+                        Utc.with_ymd_and_hms(1900, 1, 1, 0, 0, 0).unwrap(),
+                        Utc.with_ymd_and_hms(1969, 12, 31, 23, 59, 59).unwrap(),
+                    ]),
+                    true,
+                ),
+                "expires_far_future" => (
+                    *r.pick(&[
+                        Utc.with_ymd_and_hms(9999, 12, 31, 23, 59, 59).unwrap(),
+                        Utc.with_ymd_and_hms(2262, 4, 12, 0, 0, 0).unwrap(),
+                        Utc.with_ymd_and_hms(2400, 2, 29, 12, 0, 0).unwrap(),
+                        Utc.with_ymd_and_hms(5000, 1, 1, 0, 0, 0).unwrap(),
+                    ]),
+                    false,
+                ),
                 "expires_now" => (now, false),
                 "expires_plus1" => (now + Duration::seconds(1), false),
                 "offset_notation" => (now + Duration::minutes(10), false),
@@ -349,6 +371,77 @@ pub(crate) fn inject_kind(prop: &str, kind: &str, s: &mut Scenario, r: &mut Rng,
             }
             Some(("C02", format!("threshold 0 and no evidence at all for a step ({})", name), true))
         }
+        "digest_partial_agreement" => {
+            // an artifact recorded with two digest algorithms on both sides of a MATCH: the two recordings
+            // agree under sha256 and differ under sha512. They are different recordings.
+            let l = layout_mut(&mut s.block)?.clone();
+            let i = (1..l.steps.len()).find(|&i| l.steps[i].mats.iter().any(|rl| matches!(rl, ArtifactRule::Match { from, .. } if *from == l.steps[i - 1].name)))?;
+            let (prev, cur) = (l.steps[i - 1].name.clone(), l.steps[i].name.clone());
+            let mut path: Option<String> = None;
+            for fi in evidence_files(&s.dir, &prev) {
+                if let SFile::Block(b) = &mut s.dir.files[fi].1 {
+                    match &mut b.meta {
+                        SMeta::Link(lk) => {
+                            let n = lk.prods.len();
+                            if n == 0 {
+                                return None;
+                            }
+                            lk.prods[n - 1].1 = 6;
+                            path = Some(lk.prods[n - 1].0.clone());
+                        }
+                        _ => return None,
+                    }
+                }
+            }
+            let path = path?;
+            for fi in evidence_files(&s.dir, &cur) {
+                if let SFile::Block(b) = &mut s.dir.files[fi].1 {
+                    match &mut b.meta {
+                        SMeta::Link(lk) => {
+                            for m in lk.mats.iter_mut().filter(|m| m.0 == path) {
+                                m.1 = 7;
+                            }
+                            for m in lk.prods.iter_mut().filter(|m| m.0 == path) {
+                                m.1 = 7;
+                            }
+                        }
+                        _ => return None,
+                    }
+                }
+            }
+            Some((if prop == "C13" { "C13" } else { "C03" }, format!("a material of {} matches the product of {} under one digest algorithm only", cur, prev), true))
+        }
+        "threshold_zero_norules" => {
+            // a step in the middle of the chain with threshold 0, no artifact rules and no evidence at all:
+            // "at least one" still applies
+            let l = layout_mut(&mut s.block)?;
+            if l.steps.is_empty() {
+                return None;
+            }
+            let si = if l.steps.len() >= 3 { 1 + r.below(l.steps.len() - 2) } else { r.below(l.steps.len()) };
+            l.steps[si].threshold = 0;
+            l.steps[si].mats.clear();
+            l.steps[si].prods.clear();
+            let name = l.steps[si].name.clone();
+            // nobody else may depend on its link
+            for st in l.steps.iter_mut() {
+                for rules in [&mut st.mats, &mut st.prods] {
+                    for rl in rules.iter_mut() {
+                        if let ArtifactRule::Match { from, .. } = rl {
+                            if *from == name {
+                                *rl = ArtifactRule::Allow(vp("*"));
+                            }
+                        }
+                    }
+                }
+            }
+            let idx = evidence_files(&s.dir, &name);
+            for &i in idx.iter().rev() {
+                s.dir.files.remove(i);
+            }
+            s.dir.subs.retain(|x| !x.0.starts_with(&format!("{}.", name)));
+            Some(("C02", format!("threshold 0, no rules and no evidence at all for a step ({})", name), true))
+        }
         "threshold_zero_onelink" => {
             let l = layout_mut(&mut s.block)?;
             let si = r.below(l.steps.len());
@@ -365,7 +458,8 @@ pub(crate) fn inject_kind(prop: &str, kind: &str, s: &mut Scenario, r: &mut Rng,
             Some(("C02", format!("the threshold of a step exceeds the number of signed links ({})", name), true))
         }
         // ---------------------------------------------------------------- C07 / C13
-        "disagree_product_digest" | "disagree_material_path" | "disagree_extra_entry" | "disagree_t1" | "agree_extra_differs" | "pre_disagree" | "differing_links_t1" | "differing_links_t1_rules" => {
+        "disagree_product_digest" | "disagree_material_path" | "disagree_extra_entry" | "disagree_t1" | "agree_extra_differs" | "pre_disagree" | "differing_links_t1" | "differing_links_t1_rules"
+        | "disagree_path_spelling" | "disagree_alias_entry" | "disagree_algorithm_set" => {
             let l = layout_mut(&mut s.block)?.clone();
             let want_t2 = !matches!(kind, "disagree_t1" | "differing_links_t1" | "differing_links_t1_rules");
             let si = (0..l.steps.len()).find(|&i| {
@@ -412,6 +506,38 @@ pub(crate) fn inject_kind(prop: &str, kind: &str, s: &mut Scenario, r: &mut Rng,
                         "disagree_material_path" => {
                             lk.mats.push(("extra-material".into(), 1));
                         }
+                        "disagree_path_spelling" => {
+                            // the same artifact under another spelling of its path is another entry
+                            let n = lk.prods.len();
+                            if n == 0 {
+                                return None;
+                            }
+                            let i = r.below(n);
+                            lk.prods[i].0 = match r.below(4) {
+                                0 => format!("./{}", lk.prods[i].0),
+                                1 => format!("x/../{}", lk.prods[i].0),
+                                2 => format!("{}/", lk.prods[i].0),
+                                _ => format!(".//{}", lk.prods[i].0),
+                            };
+                        }
+                        "disagree_alias_entry" => {
+                            if lk.prods.is_empty() {
+                                return None;
+                            }
+                            let (p0, d0) = lk.prods[0].clone();
+                            let arts = if r.chance(1, 2) { &mut lk.prods } else { &mut lk.mats };
+                            arts.push((format!("./{}", p0), if d0 == 9 { 8 } else { 9 }));
+                        }
+                        "disagree_algorithm_set" => {
+                            // same sha256 value, recorded with sha512 as well (or instead)
+                            let n = lk.prods.len();
+                            if n == 0 {
+                                return None;
+                            }
+                            let i = r.below(n);
+                            let d = lk.prods[i].1;
+                            lk.prods[i].1 = if d >= 4 && d % 4 == 0 { d + *r.pick(&[1u8, 2, 3]) } else { 21 };
+                        }
                         "disagree_extra_entry" | "disagree_t1" => {
                             lk.prods.push(("extra-product".into(), 2));
                         }
@@ -437,6 +563,23 @@ pub(crate) fn inject_kind(prop: &str, kind: &str, s: &mut Scenario, r: &mut Rng,
             }
         }
         // ---------------------------------------------------------------- C08
+        "insp_rule_named_like_step" => {
+            // an inspection that shares its name with a step is still held to its own rules
+            let l = layout_mut(&mut s.block)?;
+            if l.inspect.is_empty() || l.steps.is_empty() {
+                return None;
+            }
+            let ii = r.below(l.inspect.len());
+            let sname = l.steps[r.below(l.steps.len())].name.clone();
+            if l.inspect.iter().any(|i| i.name == sname) {
+                return None;
+            }
+            l.inspect[ii].name = sname.clone();
+            l.inspect[ii].script = Some(script("", &sname, 0, "echo x > made-by-the-namesake;"));
+            l.inspect[ii].mats = vec![ArtifactRule::Allow(vp("*"))];
+            l.inspect[ii].prods = vec![ArtifactRule::Disallow(vp("made-by-the-namesake")), ArtifactRule::Allow(vp("*"))];
+            Some(("C08", format!("an artifact rule of an inspection named like a step fails ({})", sname), true))
+        }
         "insp_exit" | "insp_notfound" | "insp_rule" => {
             let l = layout_mut(&mut s.block)?;
             if l.inspect.is_empty() {
@@ -515,6 +658,7 @@ pub(crate) fn inject_kind(prop: &str, kind: &str, s: &mut Scenario, r: &mut Rng,
             let short = subname[l.steps[si].name.len() + 1..].to_string();
             let owner = *l.steps[si].pubkeys.iter().find(|&&k| prefix8(pool, k) == short)?;
             let desc: String;
+            let mut rename_to: Option<String> = None;
             {
                 let subdir_pos = s.dir.subs.iter().position(|x| x.0 == subname);
                 let SFile::Block(b) = &mut s.dir.files[fi].1 else { return None };
@@ -551,6 +695,21 @@ pub(crate) fn inject_kind(prop: &str, kind: &str, s: &mut Scenario, r: &mut Rng,
                         let il = layout_mut(b)?;
                         il.steps[0].prods = vec![ArtifactRule::Disallow(vp("*"))];
                         desc = "an artifact rule inside the sub-layout fails".into();
+                    }
+                    "sub_misfiled" => {
+                        // an honest sub-layout, signed by an authorized functionary, its links in that
+                        // functionary's sub-directory - but the file is named after another key
+                        let other = match r.below(3) {
+                            0 => l.steps[si].pubkeys.iter().cloned().find(|&k| k != owner).map(|k| prefix8(pool, k)),
+                            1 => Some(prefix8(pool, other_key(pool, r, &l.keys))),
+                            _ => Some("0a1b2c3d".to_string()),
+                        }?;
+                        let nn = format!("{}.{}.link", l.steps[si].name, other);
+                        if other == short || s.dir.files.iter().any(|f| f.0 == nn) {
+                            return None;
+                        }
+                        rename_to = Some(nn);
+                        desc = "the sub-layout is filed under a key id prefix that its signature does not carry".into();
                     }
                     "sub_dir_misnamed" => {
                         // the sub-layout's links sit in a directory whose name is close to, but not,
@@ -626,6 +785,9 @@ pub(crate) fn inject_kind(prop: &str, kind: &str, s: &mut Scenario, r: &mut Rng,
                     _ => return None,
                 }
             }
+            if let Some(nn) = rename_to {
+                s.dir.files[fi].0 = nn;
+            }
             Some((if k == "sub_expired" && prop == "C06" { "C06" } else { "C15" }, format!("{} (step {})", desc, l.steps[si].name), true))
         }
         _ => None,
@@ -662,10 +824,19 @@ pub fn run(cfg: &Cfg, prop: &str) {
             }
         }
         let nfaults = if i % 5 == 0 { 0 } else { 1 };
+        let base = s.clone();
         for _ in 0..nfaults {
             if let Some(f) = inject(prop, &mut s, &mut r, &pool) {
                 s.faults.push(f);
             }
+        }
+        // history: the fault-free scenario is verified first in the same process (as a verifier that
+        // meets the genuine metadata before a manipulated copy of it would), so that anything remembered
+        // from one verification to the next is in place when the faulty one runs
+        if !s.faults.is_empty() && (prop == "C01" || i % 2 == 0) {
+            let b = crate::e2e::run(&pool, &base);
+            sink.stat(if b.ok { "history/base-ok" } else { "history/base-err" });
+            sink.oracle(!b.panicked, "verification panicked", &b.op);
         }
         let out = crate::e2e::run(&pool, &s);
         let fatal: Vec<&Fault> = s.faults.iter().filter(|f| f.2).collect();
